@@ -73,6 +73,7 @@ type FT struct {
 	held    map[string]bool
 	stateNow *State
 	afterLock *State
+	dynSelf   *SpecVal
 }
 
 func (ft *FT) note(s string) { ft.notes[s] = true }
